@@ -657,7 +657,70 @@ def expand_predicates(prog, d):
             return ("pred_and", ("isvariant", o, v), body)
     if d[0] == "un" and d[1] == "Not":
         return ("un", "Not", expand_predicates(prog, d[2]))
+    # `check(x).is_err()` / `.is_ok()` with `check` a write-free workspace function whose single Err return is taken under one
+    # comparison of its parameters (`if p % self.tick != 0 { return Err(..) } Ok(())`): the test IS that comparison
+    if d[0] == "call" and d[4] in ("is_err", "is_ok") and len(d[2]) == 1 and d[2][0][0] == "call":
+        r = result_predicate(prog, d[2][0])
+        if r is not None:
+            return r if d[4] == "is_err" else ("un", "Not", r)
     return d
+
+
+_RESULT_PRED = {}
+
+
+def result_predicate(prog, call):
+    """boolean origin expression equivalent to `call(..) is Err` for a side-effect-free workspace function with exactly one
+    Err return guarded by a single comparison atom and Ok returns otherwise; None if the callee is not of that form"""
+    from .origin import Ev, strip
+    if not isinstance(call[1], str):
+        return None
+    callee = prog.fns.get(call[1]) or (prog.fn_by_short(call[1]) if hasattr(prog, "fn_by_short") else None)
+    if callee is None or callee.body is None or len(call[2]) != len(callee.params):
+        return None
+    key = callee.path
+    if key not in _RESULT_PRED:
+        _RESULT_PRED[key] = None
+        ev = Ev(prog, callee)
+        cfg = Cfg(prog, callee, ev)
+        errs, oks, other = [], [], []
+        for b in callee.body.return_blocks():
+            v = strip(ev.local_val(0, ev.term_at(b)))
+            alts = v[1] if v[0] == "phi" else (v,)
+            for x in alts:
+                if x[0] == "agg" and x[2].endswith("Result::Err"):
+                    errs.append(b)
+                elif x[0] == "agg" and x[2].endswith("Result::Ok"):
+                    oks.append(b)
+                else:
+                    other.append(b)
+        # every Err value is built in a block controlled by the same single comparison; no writes through parameters
+        writes = any(st.k == "assign" and any(p["k"] == "deref" for p in st.place.proj) for blk in callee.body.blocks if not blk.cleanup for st in blk.stmts)
+        calls_mut = any(any((a.place is not None and (a.place.ty or "").startswith("&mut")) for a in t.args) for _b, t in callee.body.calls())
+        if errs and oks and not other and not writes and not calls_mut:
+            conds = set()
+            for blk in callee.body.blocks:
+                if blk.cleanup:
+                    continue
+                for i, st in enumerate(blk.stmts):
+                    if st.k == "assign" and st.rv.k == "agg" and str(st.rv.j.get("adt", st.rv.j.get("name", ""))).endswith("Err"):
+                        conds.add(tuple(cfg.guards(blk.i)))
+            if len(conds) == 1:
+                g = list(conds)[0]
+                if len(g) == 1 and g[0][0] == "cmp":
+                    _RESULT_PRED[key] = g[0]
+    atom = _RESULT_PRED[key]
+    if atom is None:
+        return None
+    inv = {v: k for k, v in BINCMP.items()}
+
+    def sub(e):
+        if not isinstance(e, tuple):
+            return e
+        if e and e[0] == "param" and isinstance(e[1], int) and 1 <= e[1] <= len(call[2]):
+            return call[2][e[1] - 1]
+        return tuple(sub(x) for x in e)
+    return ("bin", inv[atom[1]], sub(atom[2]), sub(atom[3]))
 
 
 def bool_atoms(d, truth):
